@@ -241,7 +241,8 @@ func c15P2(c *Ctx, fn *FuncInfo, counts map[string]int) {
 		if !ok {
 			return true
 		}
-		k, isC := constInt(info, ix.Index)
+		// a constant, directly or as the only value of a local (`index := 0`)
+		k, isC := constInt(info, derefExpr(fn, ix.Index))
 		if !isC {
 			return true
 		}
@@ -292,9 +293,55 @@ func c15P2(c *Ctx, fn *FuncInfo, counts map[string]int) {
 				}
 			}
 		}
-		c.Require("C15.P2", key, fn, ix, fmt.Sprintf("len(%s) > %d", exprString(ix.X), k), nil)
+		req := fmt.Sprintf("len(%s) > %d", exprString(ix.X), k)
+		// a bound the callers establish: when the slice hangs off a parameter and the function itself
+		// does not test it, the requirement is judged at every call site instead (closed world)
+		if root := rootIdent(ix.X); root != nil {
+			if pv, _ := info.ObjectOf(root).(*types.Var); pv != nil && paramIndex(fn, pv) >= 0 {
+				pi := paramIndex(fn, pv)
+				e := NewFactEngine(c.P, fn)
+				if f, err := e.ParseReq(req, ix.Pos()); err == nil {
+					if ok, _, _ := e.FactsAt(ix, f); !ok {
+						sites := c.P.CallsTo(nil, fn.Obj)
+						usable := len(sites) > 0 && !c.P.valueReferenced(fn.Obj)
+						for _, cs := range sites {
+							if pi >= len(cs.Call.Args) || !isPurePath(cs.Call.Args[pi]) {
+								usable = false
+							}
+						}
+						if usable {
+							for _, cs := range sites {
+								arg := exprString(cs.Call.Args[pi])
+								at := strings.Replace(exprString(ix.X), root.Name, arg, 1)
+								c.Require("C15.P2", key+" (bound established by the caller "+cs.Fn.Key()+")", cs.Fn, cs.Call, fmt.Sprintf("len(%s) > %d", at, k), nil)
+							}
+							return true
+						}
+					}
+				}
+			}
+		}
+		c.Require("C15.P2", key, fn, ix, req, nil)
 		return true
 	})
+}
+
+// rootIdent is the identifier a selector / index path starts at.
+func rootIdent(x ast.Expr) *ast.Ident {
+	for {
+		switch t := ast.Unparen(x).(type) {
+		case *ast.Ident:
+			return t
+		case *ast.SelectorExpr:
+			x = t.X
+		case *ast.IndexExpr:
+			x = t.X
+		case *ast.StarExpr:
+			x = t.X
+		default:
+			return nil
+		}
+	}
 }
 
 func c15P3(c *Ctx, fn *FuncInfo, counts map[string]int) {
